@@ -347,9 +347,47 @@ class NegateExpression(UnaryExpression):
             AddExpression,
             SubtractExpression,
         )
-        if isinstance(inner, binary_types):
+        if isinstance(inner, binary_types) or self._needs_parens(inner):
             inner = f"({inner})"
         return self.with_color("-{}".format(inner))
+
+    def _needs_parens(self, inner: Optional[MathExpression]) -> bool:
+        """Return True if a minus sign written directly in front of the text of
+        `inner` would be read differently by the parser."""
+        if inner is None:
+            return False
+        # "-x * y" is (-x) * y: harmless on its own, but not as a divisor or exponent
+        if isinstance(inner, (MultiplyExpression, DivideExpression)):
+            if isinstance(self.parent, (DivideExpression, PowerExpression)):
+                if not f"{inner}".startswith("("):
+                    return " " in f"{inner}"
+        # Walk down to whatever the text of inner starts with
+        leaf: MathExpression = inner
+        while True:
+            if isinstance(leaf, BinaryExpression) and leaf.self_parens():
+                # the compact "4x" form prints without its parentheses
+                if not (isinstance(leaf, MultiplyExpression) and leaf.is_compact()):
+                    return False
+            if isinstance(leaf, FactorialExpression):
+                first = leaf.get_child()
+            elif isinstance(leaf, BinaryExpression):
+                first = leaf.left
+            else:
+                break
+            if first is None:
+                break
+            leaf = first
+        # a second minus sign
+        if isinstance(leaf, NegateExpression):
+            return True
+        if isinstance(leaf, ConstantExpression):
+            if leaf.value is not None and leaf.value < 0:
+                return True
+            # the parser folds the sign into a literal: -3^2 is (-3)^2, -3! is (-3)!
+            return leaf is not inner and isinstance(
+                leaf.parent, (PowerExpression, FactorialExpression)
+            )
+        return False
 
     def to_math_ml_fragment(self) -> str:
         """Convert this single node into MathML."""
@@ -589,9 +627,8 @@ class MultiplyExpression(BinaryExpression):
     def operate(self, one: NumberType, two: NumberType) -> NumberType:
         return one * two
 
-    def __str__(self) -> str:
-        """Multiplication special cases constant*variable to output `4x` instead of
-        `4 * x`"""
+    def is_compact(self) -> bool:
+        """Return True if this product prints as `4x` or `4x^2` instead of `4 * x`"""
         left, right = self._check()
         if isinstance(left, ConstantExpression):
             # const * var
@@ -600,8 +637,15 @@ class MultiplyExpression(BinaryExpression):
             two = isinstance(right, PowerExpression) and isinstance(
                 right.left, VariableExpression
             )
-            if one or two:
-                return self.with_color(f"{left}{right}")
+            return one or two
+        return False
+
+    def __str__(self) -> str:
+        """Multiplication special cases constant*variable to output `4x` instead of
+        `4 * x`"""
+        left, right = self._check()
+        if self.is_compact():
+            return self.with_color(f"{left}{right}")
         return super().__str__()
 
     def to_math_ml_fragment(self) -> str:
@@ -666,7 +710,16 @@ class PowerExpression(BinaryExpression):
         return np.power(one, two)
 
     def __str__(self) -> str:
-        return "{}{}{}".format(self.left, self.with_color(self.name), self.right)
+        left, right = f"{self.left}", f"{self.right}"
+        # A negated or compactly printed (4x) base must keep its grouping, or the
+        # exponent would bind to its last factor only
+        compact = isinstance(self.left, MultiplyExpression) and self.left.is_compact()
+        if isinstance(self.left, NegateExpression) or compact:
+            left = f"({left})"
+        # x^(y^z) is not (x^y)^z
+        if isinstance(self.right, PowerExpression):
+            right = f"({right})"
+        return "{}{}{}".format(left, self.with_color(self.name), right)
 
 
 class ConstantExpression(MathExpression):
